@@ -17,6 +17,8 @@ CLAIMED = {
          "Between.Reverse (pinned by TestLocationReverse) and Join(Ranged,Point) are listed known findings"),
  "C06": ("§4 C06", "Join/Order of 2..5 parts are proved to keep the covered set per strand and the first-occurrence reading order and never to invent markers; location text is printed and re-parsed symbolically within the stated digit/length bounds.",
          "Join(Ranged,Point) pinned by TestLocationReduction is a listed known finding"),
+ "C07": ("§4 C07", "every entry point is executed on fully symbolic short inputs (each byte ranges over all 256 values, partitioned by the comparisons the real parser makes) and on single structure-aware edits (truncate/flip/delete/insert/line delete/duplicate at every offset, symbolic byte) of a writer-produced GenBank record: no Go panic, the scan loop terminates, truncation is reported, and an accepted record has residues == declared length == residues present in ORIGIN.",
+         "input lengths and the base record are bounded as stated; non-ASCII bytes reaching UTF-8 decoding are cut (listed under paths_cut_outside_claim); regexp.Compile on symbolic patterns is nondeterministic; io.Readers deliver whole buffers"),
  "C08": ("§4 C08", "Regions.Resize/Segment.Resize are proved, for 1..5 segments on either strand and all five modifier forms with unbounded offsets, to yield exactly the bases [lo,hi) of the spliced region (position and strand of every t-th base), extending the first/last segment outward.",
          "segments non-empty; segment count bounded"),
  "C09": ("§4 C09", "Minimize/InvertLinear/InvertCircular are proved on collections of up to 5 segments (any overlap/orientation/order, real sort.Sort source) to give forward, increasing, non-abutting segments with the same coverage, and an inversion that partitions [0,n) with it.",
@@ -25,6 +27,8 @@ CLAIMED = {
          "location level; shapes bounded as C02"),
  "C16": ("§4 C16", "fromOriginLength(toOriginLength(n))=n, strict monotonicity and an independently written layout formula are proved for every n in [0,4e18] in one query each; NewOrigin/Bytes layout is executed on symbolic residues for bounded lengths.",
          "layout harness lengths bounded as stated in the evidence"),
+ "C17": ("§4 C17", "FastaWriter/wrap.Force/FastaParser/Scanner are executed on records with symbolic descriptions and symbolic residues (printable minus '>') at lengths around the 70-column boundaries, 1-3 records per stream: same count, descriptions and residues; GenBank->FASTA conversion keeps residues and builds the documented description (also for slices).",
+         "residue lengths are the listed concrete values; CRLF input is outside (gts never writes it)"),
  "C18": ("§4 C18", "Complement/Transcribe are executed on a symbolic byte (all 256 values per query) against a 16-letter base-set table written in the harness: complementary set, case, non-letters unchanged, involution up to U, Transcribe differs only at A.",
          "regexp/suffixarray based Match/Search are covered only where stated in the evidence"),
  "C19": ("§4 C19", "LocationLess is proved irreflexive/asymmetric/transitive on triples of bounded shapes for all coordinates; FeatureSlice.Insert (real sort.Search) is proved to keep exactly the inserted features, sources first, in non-decreasing order; Within/Overlap/And/Or/Not/Key/strand filters and Filter against pointwise references.",
